@@ -136,6 +136,55 @@ func run(c *mon.Ctx) {
 			}
 		}
 	})
+	// section_length is a 12-bit field: sections of 1024..4093 bytes decode like small ones
+	c.Floor("large.sections", 100)
+	c.Stream("large-sections", c.N(600, 60000), func(i int, r *gen.Rand) {
+		s := ref.GenSig(r, true)
+		if s.Cmd == 5 && !s.Prog && r.Bool() {
+			for k := 20 + r.Intn(200); k > 0 && len(s.Comps) < 255; k-- {
+				s.Comps = append(s.Comps, ref.InsComp{Tag: r.Byte(), HasPTS: !r.Chance(3), PTS: r.U33()})
+			}
+		}
+		want := r.PickInt([]int{1024, 1025, 1100, 1279, 1280, 2047, 2048, 2049, 3000, 3071, 3072, 4000, 4090, 4093, 1024 + r.Intn(3070)})
+		for len(s.Section())-3 < want {
+			d := ref.GenSegDesc(r, true)
+			if !d.Foreign && !d.Cancel && d.UPIDType != 0x0d && d.UPIDType != 0 && r.Bool() {
+				keep := d.UPID
+				if d.UPID = r.Bytes(100 + r.Intn(130)); len(d.Enc())-2 > 255 {
+					d.UPID = keep
+				}
+			}
+			s.Descs = append(s.Descs, d)
+			if len(s.Section())-3 > 4093 {
+				s.Descs = s.Descs[:len(s.Descs)-1]
+				if rest := want - (len(s.Section()) - 3) - 2; rest >= 0 && rest <= 255 {
+					s.Descs = append(s.Descs, ref.SegDesc{Foreign: true, Tag: 0x80, Body: r.Bytes(rest)})
+				}
+				break
+			}
+		}
+		sec := s.Section()
+		if len(sec)-3 > 4093 || len(sec)-3 < 1024 {
+			return
+		}
+		in := s.Payload()
+		snap := append([]byte{}, in...)
+		x, err := scte35.NewSCTE35(in)
+		c.Eval(1)
+		c.Count("large.sections")
+		if err != nil || x == nil {
+			c.Fail("decode-large:error", fmt.Sprintf("a well-formed section with section_length %d was rejected: %v", len(sec)-3, err), wit{mon.Hex(snap), s35.Shape(&s), fmt.Sprint(err)})
+			return
+		}
+		if !bytes.Equal(x.Data(), sec) {
+			c.Fail("decode-large:data", fmt.Sprintf("Data() of a decoded signal with section_length %d is not the section bytes", len(sec)-3), wit{mon.Hex(snap), s35.Shape(&s), mon.Hex(x.Data())})
+		}
+		s35.CheckDecoded(c, "decode-large", &s, x, snap)
+		if !bytes.Equal(in, snap) {
+			c.Fail("decode-large:input-modified", "decoding or a getter modified the input", wit{mon.Hex(snap), s35.Shape(&s), ""})
+		}
+		c.Class(fmt.Sprintf("large/len=%d/descs=%d/comps=%v", (len(sec)-3)/256, len(s.Descs)/4, len(s.Comps) > 3))
+	})
 	// rejection of a time_signal without a time: any error is accepted, a value is not
 	c.Stream("time-signal-without-time", c.N(200, 5000), func(i int, r *gen.Rand) {
 		s := ref.GenSig(r, false)
